@@ -186,9 +186,12 @@ pub fn run(ctx: &Ctx) -> Report {
     // blocks in between): everything selected, and the multi-run file alone
     for (cfg, ops) in crate::c01::corpus() {
         let b = build(&cfg, &ops);
-        if !b.finalized || ops.len() < 6 || ops.len() > 300 { continue; }
+        if !b.finalized || ops.len() < 6 || ops.len() >= 1500 { continue; }
         let names: Vec<String> = spec_of(&ops, &b.results).keys().cloned().collect();
-        for s in [names.clone(), names.iter().take(1).cloned().collect()] {
+        // everything; the first name alone; for the wide cases, two files whose ids are 64 apart
+        let mut sel = vec![names.clone(), names.iter().take(1).cloned().collect::<Vec<String>>()];
+        if names.len() > 65 { sel.push(vec!["w1".to_string(), "w65".to_string()]); }
+        for s in sel {
             if !check(&mut rep, &mut model, &cfg, &ops, &b, &s, &mut rng) && rep.full() { return rep; }
         }
     }
